@@ -741,8 +741,7 @@ def check_contract(ct, tier, seed, k_samples):
     """full treatment of one contract; returns a JSON-able dict"""
     t0 = time.time()
     out = {'contract': ct.name, 'functions': ct.functions, 'props': ct.props}
-    sym = run_symbolic(ct, tier)
-    out['symbolic'] = sym
+    P.GROEBNER_BUDGET_S[0] = float(ct.opts.get('groebner_s', 25.0 if tier == 'quick' else 120.0))
     rng = random.Random(_seed_for(ct.name, seed))
     accepted = rejected = 0
     num_fail = []
@@ -806,6 +805,11 @@ def check_contract(ct, tier, seed, k_samples):
                     concolic_ok += 1
             elif err.startswith('exception'):
                 mismatches.append({'clause': ct.name, 'draws': _jsonable(ctx.draws), 'symbolic': err, 'real': 'no exception'})
+    if num_fail and not ct.opts.get('always_symbolic'):
+        out['symbolic'] = {'clauses': {}, 'paths': 0, 'errors': [], 'solver_s': 0.0, 'samples': [],
+                           'wd_assumed': [], 'assumed': [], 'skipped': 'concrete failure on the real code'}
+    else:
+        out['symbolic'] = run_symbolic(ct, tier)
     out['numeric'] = {'accepted': accepted, 'rejected': rejected, 'failures': num_fail[:10],
                       'concolic_agree': concolic_ok, 'encoder_mismatches': mismatches[:5],
                       'samples': samples}
